@@ -950,6 +950,20 @@ Proof. intros [? ? ? ?|? ? ? ? ? ? ? ?]; now split. Qed.
 Lemma sync_nsts cf m st next len : Sync cf m st next len -> zlen (m_sts m) = cf_n cf /\ zlen (c_G st) = cf_n cf.
 Proof. intros [? ? ? (?&?&?)|? ? ? ? ? ? [? ? ?] ?]; now split. Qed.
 
+Lemma fresh_sync cf v coup : 0 <= cf_n cf ->
+  Sync cf {| m_b := new_broker (cf_n cf); m_sts := fresh_streams (cf_n cf); m_view := v; m_coup := coup |}
+       (cst_init (cf_n cf)) None 0.
+Proof.
+  intros Hn. apply SyncPre; cbn [cst_init m_b m_sts c_R c_G c_F0]; unfold fresh_streams.
+  - now apply new_broker_inv.
+  - apply new_broker_rep.
+  - reflexivity.
+  - split; [rewrite zlen_map, zrange_length; lia|]. split; [rewrite zlen_map, zrange_length; lia|].
+    intros c Hc. split.
+    + rewrite znth_map with (d' := 0) by (rewrite zrange_length; lia). reflexivity.
+    + apply znth_map_nil.
+Qed.
+
 Lemma cycle_tail cf m st blk prims F0 len1 glen1 :
   0 <= cf_n cf -> 0 <= cf_nsamp cf ->
   BInv (cf_n cf) (m_b m) -> Rep (m_b m) (c_R st) -> zlen (m_sts m) = cf_n cf -> block_ok (cf_n cf) blk ->
@@ -985,7 +999,7 @@ Lemma step_sync cf m st next len o rest :
     step cf m o = (Ok m', ob) /\ check_step cf st o ob = Some st' /\
     Sync cf m' st' next' len' /\ inputs_ok cf next' len' rest.
 Proof.
-  intros Hn0 Hns HS Hin. destruct o as [e|blk prims].
+  intros Hn0 Hns HS Hin. destruct o as [e|blk prims|].
   - (* a request *)
     destruct (sync_broker _ _ _ _ _ HS) as [Hb HR].
     destruct (apply_edit_sync (cf_kind cf) (cf_n cf) (m_b m) (c_R st) e Hb HR) as [Hb' HR'].
@@ -1028,19 +1042,16 @@ Proof.
       apply SyncRun; cbn [m_b m_sts c_R c_G c_F0]; try assumption; try reflexivity.
       * unfold n_to_keep in *. eapply trim_all; eassumption.
       * lia.
+  - (* stop and start again *)
+    do 5 eexists. split; [reflexivity|]. split.
+    + cbn [check_step].
+      rewrite (report_ok_model (cf_n cf) (new_broker (cf_n cf)) rel_empty (new_broker_inv _ Hn0) (new_broker_rep _)).
+      reflexivity.
+    + split; [now apply fresh_sync | exact Hin].
 Qed.
 
 Lemma init_sync cf : 0 <= cf_n cf -> Sync cf (init_state (cf_n cf)) (cst_init (cf_n cf)) None 0.
-Proof.
-  intros Hn. apply SyncPre; cbn [init_state cst_init m_b m_sts c_R c_G c_F0].
-  - now apply new_broker_inv.
-  - apply new_broker_rep.
-  - reflexivity.
-  - split; [rewrite zlen_map, zrange_length; lia|]. split; [rewrite zlen_map, zrange_length; lia|].
-    intros c Hc. split.
-    + rewrite znth_map with (d' := 0) by (rewrite zrange_length; lia). reflexivity.
-    + apply znth_map_nil.
-Qed.
+Proof. intros Hn. unfold init_state. now apply fresh_sync. Qed.
 
 Lemma run_from_sync cf ops : 0 <= cf_n cf -> 0 <= cf_nsamp cf ->
   forall m st next len, Sync cf m st next len -> inputs_ok cf next len ops ->
@@ -1188,25 +1199,26 @@ Proof.
   destruct (report_ok _ _ _); [|discriminate]. intros H. inversion H. now cbn.
 Qed.
 
-Lemma truth_app c a b : truth c (a ++ b) = truth c a ++ truth c b.
+Lemma check_restart_shape cf st ob st' :
+  check_step cf st ORestart ob = Some st' -> st' = cst_init (cf_n cf).
 Proof.
-  induction a as [|o a IH]; [reflexivity|]. destruct o; cbn [app truth]; [assumption|]. now rewrite IH, app_assoc.
+  cbn [check_step]. destruct ob as [rep cnt coup| |]; try discriminate.
+  destruct (report_ok _ _ _); [|discriminate]. intros H. now inversion H.
 Qed.
 
+(* the checker state reached after a prefix is the fold of the vocabulary of Spec.v *)
 Lemma reach cf pre rest : 0 <= cf_n cf -> 0 <= cf_nsamp cf ->
   forall m st next len, Sync cf m st next len -> inputs_ok cf next len (pre ++ rest) ->
   exists obs m' st' next' len',
     run_with add_connection keeps_fixed true cf m (pre ++ rest) = obs ++ run_with add_connection keeps_fixed true cf m' rest /\
     length obs = length pre /\
     Sync cf m' st' next' len' /\ inputs_ok cf next' len' rest /\
-    c_R st' = fold_left (rel_edit (cf_kind cf) (cf_n cf)) (edits_of pre) (c_R st) /\
-    c_F0 st' = match c_F0 st with Some f => Some f | None => first_frame pre end /\
-    forall c, 0 <= c < cf_n cf -> znth [] (c_G st') c = znth [] (c_G st) c ++ truth c pre.
+    c_R st' = fold_left (rel_step (cf_kind cf) (cf_n cf)) pre (c_R st) /\
+    c_F0 st' = fold_left first_step pre (c_F0 st) /\
+    forall c, 0 <= c < cf_n cf -> znth [] (c_G st') c = fold_left (truth_step c) pre (znth [] (c_G st) c).
 Proof.
   intros Hn0 Hns. induction pre as [|o pre IH]; intros m st next len HS Hin.
-  - exists [], m, st, next, len. cbn [app length edits_of fold_left first_frame truth]. repeat split; try assumption.
-    + now destruct (c_F0 st).
-    + intros c _. now rewrite app_nil_r.
+  - exists [], m, st, next, len. cbn [app length fold_left]. repeat split; assumption.
   - cbn [app] in Hin.
     destruct (step_sync cf m st next len o (pre ++ rest) Hn0 Hns HS Hin)
       as (m1 & ob & st1 & next1 & len1 & E1 & E2 & HS1 & Hin1).
@@ -1214,17 +1226,20 @@ Proof.
     exists (ob :: obs), m', st', next', len'. split; [|split; [|split; [|split]]]; try assumption.
     + cbn [app run_with]. fold (step cf m o). rewrite E1, Er. reflexivity.
     + cbn [length]. now rewrite Hl.
-    + destruct o as [e|blk prims].
+    + cbn [fold_left]. destruct o as [e|blk prims|].
       * destruct (check_edit_shape _ _ _ _ _ E2) as (R1 & G1 & F1).
-        cbn [edits_of fold_left first_frame truth]. rewrite HR, HF, R1, F1. split; [reflexivity|]. split; [reflexivity|].
+        cbn [rel_step first_step truth_step]. rewrite HR, HF, R1, F1. split; [reflexivity|]. split; [reflexivity|].
         intros c Hc. rewrite HG by assumption. now rewrite G1.
       * destruct ob as [| recs |]; try (cbn [check_step] in E2; discriminate).
         destruct (check_cycle_sound _ _ _ _ _ _ E2) as (R1 & G1 & F1 & _).
-        cbn [edits_of fold_left first_frame truth]. rewrite HR, HF, R1, F1. split; [reflexivity|].
+        cbn [rel_step first_step truth_step]. rewrite HR, HF, R1, F1. split; [reflexivity|].
         split; [now destruct (c_F0 st)|].
         intros c Hc. rewrite HG by assumption. rewrite G1.
         destruct (sync_nsts _ _ _ _ _ HS) as [_ Hgn]. cbn [inputs_ok] in Hin. destruct Hin as (Hblk & _).
-        rewrite (znth_grown (cf_n cf)) by assumption. now rewrite app_assoc.
+        now rewrite (znth_grown (cf_n cf)) by assumption.
+      * pose proof (check_restart_shape _ _ _ _ E2) as E. subst st1.
+        cbn [rel_step first_step truth_step]. rewrite HR, HF. cbn [cst_init c_R c_F0]. split; [reflexivity|].
+        split; [reflexivity|]. intros c Hc. rewrite HG by assumption. cbn [cst_init c_G]. now rewrite znth_map_nil.
 Qed.
 
 Lemma every_cycle cf pre blk prims :
@@ -1232,7 +1247,7 @@ Lemma every_cycle cf pre blk prims :
   exists obs recs,
     run cf (pre ++ [OCycle blk prims]) = obs ++ [OSec recs] /\ length obs = length pre /\
     zlen recs = cf_n cf /\
-    let R := rel_of_edits (cf_kind cf) (cf_n cf) (edits_of pre) in
+    let R := rel_of_ops (cf_kind cf) (cf_n cf) pre in
     let F0 := match first_frame pre with Some f => f | None => blk_first blk end in
     forall r, 0 <= r < cf_n cf ->
       (forall f, zcount f (map r_frame (znth [] recs r))
@@ -1256,14 +1271,14 @@ Proof.
   destruct (check_cycle_sound _ _ _ _ _ _ E2) as (R2 & G2 & F2 & Hlen & Hall).
   split; [assumption|]. cbv zeta. intros r Hr.
   destruct (Hall r Hr) as (H1 & H2 & H3).
-  cbn [cst_init c_R c_F0] in HR, HF. unfold rel_of_edits. rewrite <- HR.
+  cbn [cst_init c_R c_F0] in HR, HF. unfold rel_of_ops. rewrite <- HR.
   split; [assumption|]. split; [assumption|].
   intros rc Hrc. specialize (H3 rc Hrc). cbv zeta in H3.
   assert (EG : znth [] (c_G st2) r = truth r (pre ++ [OCycle blk prims])).
   { rewrite G2. destruct (sync_nsts _ _ _ _ _ HS') as [_ Hgn]. cbn [inputs_ok] in Hin'. destruct Hin' as (Hblk & _).
     rewrite (znth_grown (cf_n cf)) by assumption. rewrite HG by assumption.
-    cbn [cst_init c_G]. rewrite znth_map_nil. cbn [app]. rewrite truth_app. cbn [truth]. now rewrite app_nil_r. }
-  rewrite EG in H3. rewrite HF in H3. exact H3.
+    cbn [cst_init c_G]. rewrite znth_map_nil. unfold truth. rewrite fold_left_app. reflexivity. }
+  rewrite EG in H3. unfold first_frame. rewrite <- HF. exact H3.
 Qed.
 
 (* ====================================================================================== *)
@@ -1314,7 +1329,7 @@ Definition w_old : list obs := run_with add_connection_old keeps_fixed true w_cf
 Lemma out_of_range_source_pre_fix :
   inputs_ok w_cf None 0 w_ops /\
   w_old = [ORep [(7, 1)] 1 0; OCrash] /\
-  rel_of_edits Generic 3 (edits_of w_ops) 7 1 = false /\
+  rel_of_ops Generic 3 w_ops 7 1 = false /\
   C09_check w_cf (combine w_ops w_old) = false /\
   run w_cf w_ops = [ORep [] 0 0; OSec [[]; []; []]].
 Proof.
@@ -1346,7 +1361,7 @@ Lemma every_cycle_union cf pre blk prims :
   exists obs recs,
     run cf (pre ++ [OCycle blk prims]) = obs ++ [OSec recs] /\ length obs = length pre /\
     zlen recs = cf_n cf /\
-    let R := rel_of_edits (cf_kind cf) (cf_n cf) (edits_of pre) in
+    let R := rel_of_ops (cf_kind cf) (cf_n cf) pre in
     forall r, 0 <= r < cf_n cf ->
       (forall f, zcount f (map r_frame (znth [] recs r))
                  = zsum (map (fun s => zcount f (znth [] prims s)) (sources_of (cf_n cf) R r))) /\
@@ -1399,28 +1414,42 @@ Qed.
 (* what a client is told after every request of any history                               *)
 (* ====================================================================================== *)
 
-Lemma edits_of_app a b : edits_of (a ++ b) = edits_of a ++ edits_of b.
-Proof. induction a as [|o a IH]; [reflexivity|]. destruct o; cbn [app edits_of]; now rewrite IH. Qed.
+Lemma check_report_sound cf st o rep cnt coup st' :
+  (match o with OCycle _ _ => False | _ => True end) ->
+  check_step cf st o (ORep rep cnt coup) = Some st' ->
+  c_R st' = rel_step (cf_kind cf) (cf_n cf) (c_R st) o /\
+  (forall s r, In (s, r) rep -> 0 <= s < cf_n cf /\ 0 <= r < cf_n cf) /\
+  (forall s r, 0 <= s < cf_n cf -> 0 <= r < cf_n cf -> (In (s, r) rep <-> c_R st' s r = true)).
+Proof.
+  intros Ho. destruct o as [e|blk prims|]; [|destruct Ho|].
+  - apply check_edit_sound.
+  - cbn [check_step rel_step]. destruct (report_ok _ _ rep) eqn:E; [|discriminate]. intros H. inversion H.
+    cbn [cst_init c_R]. split; [reflexivity|]. now apply report_ok_sound.
+Qed.
 
-Lemma every_request cf pre e :
-  0 <= cf_n cf -> 0 <= cf_nsamp cf -> inputs_ok cf None 0 (pre ++ [OEdit e]) ->
+(* o = a request or a restart *)
+Lemma every_request cf pre o :
+  (match o with OCycle _ _ => False | _ => True end) ->
+  0 <= cf_n cf -> 0 <= cf_nsamp cf -> inputs_ok cf None 0 (pre ++ [o]) ->
   exists obs v cnt coup,
-    run cf (pre ++ [OEdit e]) = obs ++ [ORep v cnt coup] /\ length obs = length pre /\
-    let R := rel_of_edits (cf_kind cf) (cf_n cf) (edits_of (pre ++ [OEdit e])) in
+    run cf (pre ++ [o]) = obs ++ [ORep v cnt coup] /\ length obs = length pre /\
+    let R := rel_of_ops (cf_kind cf) (cf_n cf) (pre ++ [o]) in
     (forall s r, In (s, r) v -> 0 <= s < cf_n cf /\ 0 <= r < cf_n cf) /\
     (forall s r, 0 <= s < cf_n cf -> 0 <= r < cf_n cf -> (In (s, r) v <-> R s r = true)).
 Proof.
-  intros Hn0 Hns Hin. unfold run.
-  destruct (reach cf pre [OEdit e] Hn0 Hns _ _ None 0 (init_sync cf Hn0) Hin)
+  intros Ho Hn0 Hns Hin. unfold run.
+  destruct (reach cf pre [o] Hn0 Hns _ _ None 0 (init_sync cf Hn0) Hin)
     as (obs & m' & st' & next' & len' & Er & Hl & HS' & Hin' & HR & _ & _).
-  destruct (step_sync cf m' st' next' len' (OEdit e) [] Hn0 Hns HS' Hin')
+  destruct (step_sync cf m' st' next' len' o [] Hn0 Hns HS' Hin')
     as (m2 & ob & st2 & next2 & len2 & E1 & E2 & _ & _).
-  destruct ob as [v cnt coup| |]; try (cbn [check_step] in E2; discriminate).
+  destruct ob as [v cnt coup| recs |].
+  2:{ destruct o; [cbn [check_step] in E2; discriminate | destruct Ho | cbn [check_step] in E2; discriminate]. }
+  2:{ destruct o; cbn [check_step] in E2; discriminate. }
   exists obs, v, cnt, coup. split.
-  { rewrite Er. cbn [run_with]. fold (step cf m' (OEdit e)). now rewrite E1. }
+  { rewrite Er. cbn [run_with]. fold (step cf m' o). now rewrite E1. }
   split; [assumption|].
-  destruct (check_edit_sound _ _ _ _ _ _ _ E2) as (R2 & H1 & H2).
-  cbv zeta. unfold rel_of_edits. rewrite edits_of_app, fold_left_app. cbn [edits_of fold_left].
+  destruct (check_report_sound _ _ _ _ _ _ _ Ho E2) as (R2 & H1 & H2).
+  cbv zeta. unfold rel_of_ops. rewrite fold_left_app. cbn [fold_left].
   cbn [cst_init c_R] in HR. rewrite <- HR, <- R2. now split.
 Qed.
 
@@ -1436,7 +1465,7 @@ Lemma stale_view_pre_fix :
   (* the client still believes there is no connection, yet channel 1 gets a secondary from channel 0 *)
   map (fun o => match o with ORep v _ _ => (v, []) | OSec r => ([], map (map r_frame) r) | OCrash => ([], []) end) u_old
     = [([], []); ([], [[]; [3]])] /\
-  rel_of_edits Lancero 2 (edits_of u_ops) 0 1 = true /\
+  rel_of_ops Lancero 2 u_ops 0 1 = true /\
   C09_check u_cf (combine u_ops u_old) = false /\
   map (fun o => match o with ORep v _ _ => (v, []) | OSec r => ([], map (map r_frame) r) | OCrash => ([], []) end) (run u_cf u_ops)
     = [([(0, 1)], []); ([], [[]; [3]])].
@@ -1444,3 +1473,15 @@ Proof.
   split; [unfold u_ops; solve_inputs_ok|]. split; [vm_compute; reflexivity|].
   split; [vm_compute; reflexivity|]. split; vm_compute; reflexivity.
 Qed.
+
+(* a history with a restart: the connection does not survive it, clients are told, the next cycle has no secondary *)
+Definition r_ops : list op :=
+  [OEdit (EAdd [(0, [1])]); OCycle (ex_blk 100) [[103]; []]; ORestart; OCycle (ex_blk 500) [[503]; []];
+   OEdit (EAdd [(0, [1; 9])]); OCycle (ex_blk 506) [[505]; []]].
+
+Lemma restart_example :
+  inputs_ok ex_cf None 0 r_ops /\
+  map (fun o => match o with ORep v _ _ => (v, []) | OSec r => ([], map (map r_frame) r) | OCrash => ([], []) end)
+      (run ex_cf r_ops)
+  = [([(0, 1)], []); ([], [[]; [103]]); ([], []); ([], [[]; []]); ([(0, 1)], []); ([], [[]; [505]])].
+Proof. split; [unfold r_ops; solve_inputs_ok | vm_compute; reflexivity]. Qed.
